@@ -125,6 +125,22 @@ pub fn single(maxlen: i64) -> Vec<CProgram> {
             out.push(CProgram { ops, tag: "single".into() });
         }
     }
+    // a boxed slice made from a vector with spare capacity that is the arena's latest allocation, then more
+    // allocations: the box must keep pointing at its elements
+    for len in 1..=maxlen.max(1) {
+        for extra in [1i64, 4, 10] {
+            for via_from in [false, true] {
+                let mut ops = base_vec(len);
+                ops.push(COp::Reserve { v: 0, n: extra + len, exact: true, fallible: false });
+                ops.push(COp::IntoBoxedSlice { v: 0, b: 0, via_from });
+                ops.push(COp::FromIter { v: 2, vals: vec![7, 7, 7, 7, 7, 7] });
+                ops.push(COp::BoxNew { b: 1, val: 9 });
+                ops.push(COp::Canary { size: 64 });
+                ops.push(COp::BoxRead { b: 0 });
+                out.push(CProgram { ops, tag: "single".into() });
+            }
+        }
+    }
     // comparisons / hashing / formatting of two vectors against the same on their slices
     let vs: [&[i64]; 7] = [&[], &[2], &[3], &[2, 2], &[2, 3], &[2, 2, 3], &[1, 9, 9, 9]];
     for a in vs.iter() {
